@@ -4,6 +4,7 @@ import os
 import random
 import re
 import subprocess
+import shutil
 
 import build
 from evidence import Outcome
@@ -173,6 +174,55 @@ def check_C11(tier, seed):
     out.coverage["renderings"] = {"plain": len(cases), "colour_forced": len(cases), "outputs_with_escape_sequences": coloured_outputs, "built_without_colored_feature": len(cases) if binp_nc else 0}
     if coloured_outputs == 0:
         out.inconc("colour rendering not observed (forcing colours produced no escape sequences)")
+    # ---- the two places that build a pretty error for users: the build-script helper and the command-line tool.  They must
+    # hand the *grammar text* and the *grammar's file name* to the conversion: same oracle, position from the front end
+    try:
+        import c15
+        cli = c15.build_cli()
+        bs = c15.build_bscript()
+        rd = os.path.join(wd, "routes")
+        shutil.rmtree(rd, ignore_errors=True)
+        os.makedirs(rd)
+        bad = ["@export A = = 'a';\n", "@export A = 'a';\nB = 'b'\nC = 'c';\n", "# é comment 😀\n# another\n@export A = 'a' ;\n\nB = ( 'b' ;\n", "@export A = 'a'",
+               "@export A = 'a';\r\nB = 'b' 'c' | ;\r\n", "\t@export A =\t'a' x: ;\n", "@export A = 'a';\n\n\n   B = 'é' 'ü' §;\n", "@export A = '\\q';\n",
+               "@export A = 'a';\n" + "# pad\n" * 30 + "Z = {'z'} ) ;\n", ""]
+        jobs = []
+        for k, t in enumerate(bad):
+            gp = os.path.join(rd, "bad%d.ebnf" % k)
+            with open(gp, "w", encoding="utf-8", newline="") as f:
+                f.write(t)
+            jobs.append(("b%d" % k, gp, os.path.join(rd, "bad%d.ast" % k)))
+        ra = build.run_cgdrv("ast", jobs, rd, nproc=1)
+        route_checked = 0
+        for k, t in enumerate(bad):
+            r = ra.get("b%d" % k)
+            if not r or r[0] != "parse_err":
+                continue
+            pos = int(r[2])
+            gp = jobs[k][1]
+            pb = subprocess.run([bs, "run", gp, os.path.join(rd, "o%d.rs" % k), "-", "-", "0", "-"], stdout=subprocess.PIPE, stderr=subprocess.PIPE, env=dict(build.BASE_ENV, NO_COLOR="1"), timeout=120)
+            so = pb.stdout.decode("utf-8", "replace").strip()
+            pc = subprocess.run([cli, gp], stdout=subprocess.PIPE, stderr=subprocess.PIPE, env=dict(build.BASE_ENV, NO_COLOR="1"), timeout=120)
+            texts = []
+            if so.startswith("ERR "):
+                texts.append(("build-script helper", build.unhex(so[4:])))
+            texts.append(("command-line tool", pc.stderr.decode("utf-8", "replace") + pc.stdout.decode("utf-8", "replace")))
+            for route, msg in texts:
+                i0 = msg.find("--> ")
+                if i0 < 0:
+                    out.violation("pretty-route:no-location:%s" % route, "%s: the error shown for a grammar with a syntax error has no location line: %r" % (route, msg[:200]), {"grammar_text": t, "message": msg[:1000]})
+                    continue
+                # the block starts one line above the arrow
+                start = msg.rfind("\n", 0, max(0, i0 - 1))
+                block = msg[start + 1:]
+                v = judge(t, pos, gp, "ok " + build.hexs(block))
+                route_checked += 1
+                if v:
+                    out.violation("pretty-route:%s:%s" % (route, v[0]), "%s: %s (grammar %r, error position %d)" % (route, v[1], t[:60], pos), {"grammar_text": t, "position": pos, "message": block[:1000], "route": route})
+        out.coverage["route_level_errors_checked"] = route_checked
+        shutil.rmtree(rd, ignore_errors=True)
+    except subprocess.TimeoutExpired:
+        out.inconc("route_level_watchdog")
     out.samples = [{"text": t, "position": pos, "file": fn} for (t, pos, fn) in (cases[5], cases[4000 % len(cases)], cases[-1])]
     out.samples[-1]["text"] = out.samples[-1]["text"][:200]
     out.coverage["bounded_exhaustive"] = {"alphabet": ALPHA, "max_len": maxlen, "cases": n_exh}
